@@ -231,7 +231,8 @@ def r4_handshake(ctx):
         return
     eq_switch = None
     for bb, t in inserts:
-        g = [(sbb, c, o) for (sbb, c, o) in required_outcomes(F, cp, bb) if c["kind"] == "cmp" and "ProtocolHash" in c.get("callee", "")]
+        g = [(sbb, c, o) for (sbb, c, o) in required_outcomes(F, cp, bb) if c["kind"] == "cmp" and
+             ("ProtocolHash" in c.get("callee", "") or any("ProtocolHash" in a for a in c.get("targs", [])))]
         ok = bool(g) and all(c["rel"] == "==" and o == {True} or c["rel"] == "!=" and o == {False} for (_, c, o) in g)
         ctx.check(ok, "check_protocol/authorize-only-on-equal", site_of(cp, bb),
                   "AuthorizedClient is inserted without the client's hash having compared equal to the server's")
